@@ -14,7 +14,7 @@
      solve/steady/simulate are per-variant functions; the real object graphs are extracted by the harness
      (mutability by type) and fed to the checker of part 1. *)
 From Coq Require Import ZArith List Bool PArith.
-From Verif Require Import model.Heap model.Variants model.Portable
+From Verif Require Import gen.PortableGen model.Heap model.Variants model.Portable
      proofs.HeapProofs proofs.VariantsProofs proofs.PortableProofs.
 Import ListNotations.
 
@@ -152,8 +152,10 @@ Theorem C20_portable_guard_needed : forall N : Type,
 Proof. exact equation_roundtrip_needs_guard. Qed.
 Print Assumptions C20_portable_guard_needed.
 
-(* quantities are listed kind by kind; listing again changes nothing and loses nothing *)
+(* quantities are listed kind by kind (every kind exactly once, in the order read from the source by the translator);
+   listing again changes nothing and loses nothing *)
 Theorem C20_portable_order_stable : forall qs,
-  by_kind (by_kind qs) = by_kind qs /\ forall q, In q (by_kind qs) <-> In q qs.
-Proof. intros qs. exact (conj (by_kind_idempotent qs) (by_kind_same_elements qs)). Qed.
+  by_kind (by_kind qs) = by_kind qs /\ (forall q, In q (by_kind qs) <-> In q qs) /\
+  (forall k, length (filter (qkind_eqb k) all_qkinds) = 1).
+Proof. intros qs. exact (conj (by_kind_idempotent qs) (conj (by_kind_same_elements qs) all_qkinds_complete)). Qed.
 Print Assumptions C20_portable_order_stable.
